@@ -27,6 +27,11 @@ func verifListenPacket(network, address string) (net.PacketConn, error) {
 	if verifListenFault {
 		return nil, errVerifFault
 	}
+	if verifTargetBlocking {
+		pc := &verifChanPC{in: make(chan verifRead), closedCh: make(chan struct{}), expireCh: make(chan struct{}), local: &net.UDPAddr{IP: net.IPv4(192, 0, 2, 1), Port: 21000 + len(verifChanTargets)}}
+		verifChanTargets = append(verifChanTargets, pc)
+		return pc, nil
+	}
 	pc := &verifPacketConn{name: "target", endErr: verifTimeoutErr{}, local: &net.UDPAddr{IP: net.IPv4(192, 0, 2, 1), Port: 20000 + len(verifTargets)}}
 	if verifReplyScript != nil {
 		verifReplyScript(len(verifTargets), pc)
@@ -212,7 +217,7 @@ func verifUDP(k int, nKeys int, nAddrs int, symDst bool) {
 				verifAssert("C03.payload-intact", verifBytesEq(w.data, d.payload))
 				ua, isUDP := w.addr.(*net.UDPAddr)
 				verifAssert("C03.destination", isUDP && ua.Port == d.dport && verifBytesEq(ua.IP.To4(), d.dst))
-				verifAssert("C05.udp.destination-allowed", !verifMustRejectV4(d.dst))
+				verifAssert("C05.udp.destination-allowed", isUDP && !verifMustReject(ua.IP))
 			}
 			a.writes++
 			if len(um.entries) > a.sock {
@@ -335,4 +340,93 @@ func verifRaddrLite(kind int) *net.UDPAddr {
 	default:
 		return &net.UDPAddr{IP: net.IP{0x20, 0x01, 0x0d, 0xb8, 0, 0, 0, 0, 0, 0, 0, 1, low[0], low[1], low[2], low[3]}, Port: port}
 	}
+}
+
+
+// C04: client addresses that differ only in the IPv6 zone are different clients
+func VH_C04_zoned_clients() {
+	verifResetNet()
+	cl, specs, _ := verifMakeList(1, 1, false)
+	key := verifKey(specs[0].cipher, verifSecrets[specs[0].secret])
+	um := &verifUDPMetrics{}
+	h := NewPacketHandler(defaultNatTimeout, cl, um, nil)
+	client := &verifPacketConn{name: "client"}
+	ll := net.IP{0xfe, 0x80, 0, 0, 0, 0, 0, 0, 0, 0, 0, 0, 0, 0, 0, 1}
+	c1 := &net.UDPAddr{IP: ll, Port: 4000, Zone: "eth0"}
+	c2 := &net.UDPAddr{IP: ll, Port: 4000, Zone: "eth1"}
+	body := verifBytes("reply", 2)
+	verifReplyScript = func(i int, pc *verifPacketConn) {
+		if i == 1 {
+			pc.reads = append(pc.reads, verifRead{data: body, n: 2, addr: &net.UDPAddr{IP: net.IPv4(93, 184, 216, 34), Port: 53}})
+		}
+	}
+	client.reads = []verifRead{
+		{data: verifPack(key, verifSocksV4([]byte{93, 184, 216, 34}, 53, []byte("a"))), addr: c1},
+		{data: verifPack(key, verifSocksV4([]byte{93, 184, 216, 34}, 53, []byte("b"))), addr: c2},
+	}
+	h.Handle(client)
+	verifQuiesce()
+	verifAssert("C04.zoned.two-sockets", len(verifTargets) == 2)
+	if len(verifTargets) == 2 {
+		verifAssert("C04.zoned.each-on-its-own-socket", len(verifTargets[0].writes) == 1 && len(verifTargets[1].writes) == 1)
+	}
+	// the reply that arrived on the second client's socket goes to the second client only
+	verifAssert("C04.zoned.reply-delivered-once", len(client.writes) == 1)
+	if len(client.writes) == 1 {
+		verifAssert("C04.zoned.reply-to-second-client", client.writes[0].addr == net.Addr(c2))
+	}
+	verifReach("C04.zoned.done", true)
+}
+
+// blocking outbound sockets (for associations that stay alive while others are created)
+var verifTargetBlocking bool
+var verifChanTargets []*verifChanPC
+
+// C04 / C19: associations that are alive at the same time never share packet memory: replies
+// relayed for one association are unaffected by traffic of another
+func VH_C04_reply_isolation() {
+	verifResetNet()
+	verifRaceDetect(true)
+	verifTargetBlocking = true
+	verifChanTargets = nil
+	defer func() { verifTargetBlocking = false }()
+	_, specs, _ := verifMakeList(1, 1, false)
+	key := verifKey(specs[0].cipher, verifSecrets[specs[0].secret])
+	um := &verifUDPMetrics{}
+	nm := newNATmap(defaultNatTimeout, um, noopLogger())
+	client := &verifPacketConn{name: "client"}
+	src := &net.UDPAddr{IP: net.IPv4(93, 184, 216, 34), Port: 4000}
+	t1pc, _ := verifListenPacket("udp", "")
+	t1 := t1pc.(*verifChanPC)
+	nm.Add(verifClientAddrs[0], client, key, t1, "id-0")
+	r1 := verifBytes("r1", 3)
+	verifInject(t1, r1, src) // association 1 relays one reply and keeps running
+	verifQuiesce()
+	t2pc, _ := verifListenPacket("udp", "")
+	t2 := t2pc.(*verifChanPC)
+	nm.Add(verifClientAddrs[1], client, key, t2, "id-0")
+	r2 := verifBytes("r2", 3)
+	verifInject(t2, r2, src)
+	verifQuiesce()
+	r3 := verifBytes("r3", 3)
+	verifInject(t1, r3, src)
+	verifQuiesce()
+	writes := client.Writes()
+	verifAssert("C04.isolation.three-replies", len(writes) == 3)
+	want := [][]byte{r1, r2, r3}
+	to := []net.Addr{verifClientAddrs[0], verifClientAddrs[1], verifClientAddrs[0]}
+	for i := 0; i < 3 && i < len(writes); i++ {
+		w := writes[i]
+		verifAssert("C04.isolation.right-client", w.addr == to[i])
+		pt, err := shadowsocks.Unpack(nil, w.data, key)
+		verifAssert("C04.isolation.decrypts", err == nil)
+		if err == nil {
+			verifAssert("C04.isolation.body-intact", len(pt) == 7+3 && verifBytesEq(pt[7:], want[i]))
+		}
+	}
+	t1.Expire()
+	t2.Expire()
+	verifQuiesce()
+	verifAssert("C04.isolation.reclaimed", t1.Closed() == 1 && t2.Closed() == 1 && verifBlockedIn("timedCopy") == 0)
+	verifReach("C04.isolation.done", true)
 }
